@@ -20,7 +20,7 @@ not_app = [{'property_id': p, 'reason': na.get(p, 'not yet claimed: model, theor
            for p in props if p not in claimed]
 m = {
  'version': 1,
- 'setup_cmd': 'make -C /verif all',
+ 'setup_cmd': 'make -C /verif setup',
  'hooks': {'guard': 'NBDIME_VERIF', 'enable': 'checks run nbdime from /repo with NBDIME_VERIF=1 in the environment; no in-tree hook exists, all observation is by wrappers installed from outside',
            'baseline_off_cmd': 'cd /repo && /venv/bin/python -m pytest -ra -q -p no:cacheprovider --timeout=900 --continue-on-collection-errors',
            'source_commits': [], 'add_only': True},
